@@ -1,5 +1,5 @@
 """C15 - modules load once, export read-only names, and cycles are reported (spec/ZnModule.tla)."""
-import random, json, common
+import random, json, os, common
 from common import log
 
 SHORT = {"a": "甲", "b": "乙", "c": "丙", "d": "丁", "e": "戊"}
@@ -117,6 +117,43 @@ def run(ctx):
                 rep("%s-wrong-error" % v["res"], "spec: error %d after bodies %s; interpreter error [%s] %s" % (code, v["trace"], r.get("code"), r.get("msg")))
             elif bodies != want_bodies:
                 rep("body-order-before-error", "bodies before the error %s, spec %s" % (bodies, want_bodies))
+    # ---- trace validation: the loader's own events (script-frame pushes / pops of the VM through the H2 hook, body markers, outcome)
+    # recorded while the digraph is loaded must be a behaviour of the ZnModule machine (Trace_ZnModule; silent steps for imports of
+    # modules that are already loaded; invariants after every event)
+    tsel = vecs if ctx.tier != "quick" else rnd.sample(vecs, 2500)
+    tcases = [dict(id=i, edges=v["edges"], main=v["main"], mods=["a", "b", "c"], extra="", trace=True) for i, v in enumerate(tsel)]
+    tres = common.run_harness(ctx, znh, "module", tcases, timeout=2500)
+    if len(tres) != len(tcases):
+        raise common.NoVerdict("harness returned %d/%d" % (len(tres), len(tcases)))
+    tf = os.path.join(ctx.scratch, "trace-znmodule.ndjson")
+    starts = []
+    nlines = 0
+    with open(tf, "w") as f:
+        for r in sorted(tres, key=lambda r: r["id"]):
+            if r["obs"] in ("panic", "timeout", "exit", "harness-error") or not r.get("mevs"):
+                continue            # (reported by the replay above)
+            c = tcases[r["id"]]
+            starts.append((nlines + 1, r["id"]))
+            f.write(json.dumps(dict(e="reset", m="", r="", edges=c["edges"], main=c["main"])) + "\n"); nlines += 1
+            for e in r["mevs"]:
+                f.write(json.dumps(dict(e=e["e"], m=e.get("m", ""), r=e.get("r", ""), edges=[], main=[])) + "\n"); nlines += 1
+    common.corrupt_trace(tf, ["m"], to="c")
+    ttxt, tinfo = common.tlc(ctx, "Trace_ZnModule", "Trace_ZnModule.cfg", workers=1, timeout=1500, files=[(tf, "trace.ndjson")], allow_violation=True)
+    if tinfo["violated"]:
+        import re
+        lines = open(tf).read().splitlines()
+        inv = [w for w in ("BodyAtMostOnce", "ImportsBeforeBody", "CycleIffError", "NoErrorLoadsAllReachable") if ("Invariant " + w + " is violated") in ttxt]
+        m = re.search(r'"rejected-at-line", (\d+)', ttxt)
+        if inv:
+            common.report(ctx, "trace:invariant:%s" % inv[0], "the recorded loader events violate %s" % inv[0], dict(tlc=common.tail(ttxt, 40)))
+        elif tinfo.get("postcondition_failed") and m:
+            at = int(m.group(1))
+            st = max([x for x in starts if x[0] <= at] or [(1, 0)])
+            c = tcases[st[1]]
+            common.report(ctx, "trace:rejected:%s" % json.loads(lines[at - 1]).get("e"), "import digraph %s (main imports %s): the loader's event log is not a behaviour of ZnModule - rejected at event %d of the run: %s (run: %s)" %
+                          (c["edges"], c["main"], at - st[0], lines[at - 1], [json.loads(x)["e"] + ":" + (json.loads(x)["m"] or json.loads(x)["r"]) for x in lines[st[0]:st[0] + 16]]), dict(case=c, log=lines[st[0] - 1:at + 2]))
+        else:
+            raise common.NoVerdict("Trace_ZnModule failed unexpectedly:\n" + common.tail(ttxt))
     # ---- export facet (ZnExport): import everything / every selective list of <= 4 names in every written order ----
     ntxt, _ = common.tlc(ctx, "ZnExport", "MC_ZnExport.cfg", timeout=600)
     ltxt, _ = common.tlc(ctx, "ZnExport", "MC_ZnExport_lib.cfg", timeout=600)
@@ -158,6 +195,6 @@ def run(ctx):
                     "imported modules x four import lists (TLC checks the invariants on all 262144; quick replays a seeded 6000 of them, thorough all), plus all digraphs on two modules with a missing third one (576): TLC runs the depth-first load machine (invariants: body at most once, imports before body, circular error iff a cycle "
                     "is reachable - against an independent transitive-closure definition) and emits body trace and result; each vector becomes a directory of .zn files with "
                     "1-3 path segments, executed with LoadFile().Execute: body order/multiplicity, error code 63/60, and five probes per module (an imported method, a handler block of an imported method, a body "
-                    "constructing the module's type and a method of that type must all be able to use their own module's names, and a method that calls what its module imported - methods of the modules it imports, a library function - gives from the importer what it gives at home; modules not imported by main are not visible); the three-module digraphs again under other module names (1-4 path segments; dots, digits, Latin letters, underscores inside a segment), with one module file made of import statements only, and with the library 《@JSON》 imported by every file; plus 8 export/read-only/selective-import probe programs; export facet (ZnExport): import-all and every selective list of <= 4 distinct names over {method, helper method, type, module variable, unknown name} in every written order (206), the same for the library 《@JSON》 (16) - usable names = exported names that are listed, every usable name refuses assignment",
+                    "constructing the module's type and a method of that type must all be able to use their own module's names, and a method that calls what its module imported - methods of the modules it imports, a library function - gives from the importer what it gives at home; modules not imported by main are not visible); the three-module digraphs again under other module names (1-4 path segments; dots, digits, Latin letters, underscores inside a segment), with one module file made of import statements only, and with the library 《@JSON》 imported by every file; plus 8 export/read-only/selective-import probe programs; TRACE VALIDATION: the loader's own events (script-frame pushes / pops through the H2 hook, body markers, outcome) of 2500 (all 7680) digraph runs are validated by TLC against Trace_ZnModule (ZnModule's actions, silent steps for already-loaded imports, invariants after every event); export facet (ZnExport): import-all and every selective list of <= 4 distinct names over {method, helper method, type, module variable, unknown name} in every written order (206), the same for the library 《@JSON》 (16) - usable names = exported names that are listed, every usable name refuses assignment",
                spec_outcomes=outcomes)
     return cov, ["import order inside a module is alphabetical (the generator writes it that way)", "four modules: exhaustive in the thorough tier, a TLC-seeded sample in the quick tier"]
